@@ -141,7 +141,13 @@ def _channel(a, ser: str, net_fault: str | None) -> dict:
             ct = a.choice(["application/json", "application/json", "application/json; charset=utf-8", *cts])
         else:
             ct = a.choice(["application/yaml", "text/yaml", *cts])
-        return {"kind": "url", "content_type": ct, "net_fault": net_fault, "url": a.choice(["http://sim.test/openapi.json", "http://sim.test/openapi.yaml", "https://sim.test/api/spec", "http://sim.test/openapi"])}
+        url = a.choice(["http://sim.test/openapi.json", "http://sim.test/openapi.yaml", "https://sim.test/api/spec", "http://sim.test/openapi"])
+        if net_fault is None and a.random() < 0.12:
+            # the --url argument itself is junk: what httpx makes of it (InvalidURL, UnsupportedProtocol, a request to
+            # some other host) is the real code's business; the stub transport only ever sees well-formed requests
+            url = a.choice(["http://[::1", "http://sim.test:99999/x", "http://", "not a url", "file:///etc/passwd", "http://exa mple.com/a", "http://sim.test/a\nb",
+                            "htp://sim.test/x", "//sim.test/x", "http://sim.test/\u00e9\u2615", "http://user:pa ss@sim.test/", "http://sim.test/" + "a" * 70000, "http://sim.test/%zz?#"])
+        return {"kind": "url", "content_type": ct, "net_fault": net_fault, "url": url}
     if ser.startswith("json"):
         ext = a.choice([".json", ".json", ".json", ".yaml", ""])
     else:
